@@ -464,6 +464,9 @@ pub fn run(ctx: &mut Ctx) {
     // every constructor yields a day inside 1..=length of its month (or refuses): the constructor regulation oracle
     // of C17, run here over raw year/month/day values incl. 0, length+1, 255 under both overflow modes
     ctx.run_prop(&crate::props::c17::CtorSub, &crate::props::c17::ctor_case, tier.pick(150_000, 2_000_000));
+    // adding any duration (years / months with month-end clamping in the right year, weeks, days, time units worth
+    // whole days) lands on the day AddISODate names: C04's add oracle
+    ctx.run_prop(&crate::props::c04::AddSub, &crate::props::c04::add_case, tier.pick(300_000, 5_000_000));
 }
 
 pub fn replay(ctx: &mut Ctx, sub: &str, case: &Value) -> bool {
@@ -472,6 +475,7 @@ pub fn replay(ctx: &mut Ctx, sub: &str, case: &Value) -> bool {
         "pair" => ctx.replay_case(&PairSub, case),
         "year" => ctx.replay_case(&YearSub, case),
         "ctor" => ctx.replay_case(&crate::props::c17::CtorSub, case),
+        "add" => ctx.replay_case(&crate::props::c04::AddSub, case),
         _ => false,
     }
 }
